@@ -404,7 +404,8 @@ def _ops():
 
     @op('hash')
     def _(s):
-        return (hash(s.spec) == hash(s.spec), hash(s.prefix_spec) == hash(s.prefix_spec))
+        # the values themselves (stable within one process) so that a recursion-guard placeholder (0) is visible
+        return (hash(s.spec), hash(s.prefix_spec), hash(s.spec) == hash(s.spec), hash(s.other_spec))
 
     @op('repr')
     def _(s):
